@@ -32,10 +32,10 @@ BackList(bs) ==
     [] bs = "epi"      -> <<Backend("rust", NoText, Epi(1))>>
     [] bs = "both"     -> <<Backend("rust", Pro(1), Epi(1))>>
     [] bs = "two"      -> <<Backend("rust", Pro(1), NoText), Backend("rust", Pro(2), Epi(2))>>
-    [] bs = "mixed"    -> <<Backend("cpp", "#include <x.h>", "// cpp end"), Backend("rust", Pro(1), Epi(1)),
-                            Backend("cpp", "int y;", NoText)>>
+    [] bs = "mixed"    -> <<Backend("cpp", "pub const CPP_1: u32 = 1;", "pub const CPP_END: u32 = 2;"), Backend("rust", Pro(1), Epi(1)),
+                            Backend("cpp", "pub const CPP_2: u32 = 3;", NoText)>>
     [] bs = "comment"  -> <<Backend("rust", ProComment, Epi(1))>>
-    [] OTHER           -> <<Backend("cpp", "int x;", NoText)>>
+    [] OTHER           -> <<Backend("cpp", "pub const CPP_3: u32 = 4;", NoText)>>
 
 ModA(bs, col) ==
   LET defs == CASE col = "duptype"  -> <<P, E, V, P2>>
